@@ -146,6 +146,18 @@ def gen_converge(rng, n_nodes, length):
     return {"kind": "converge", "nodes": ids, "ops": ops, "keys_of": keys_of}
 
 
+def gen_lossy(rng, n_nodes, length):
+    """a third of the incremental messages are LOST; flush + one anti-entropy round must still leave every node
+    with exactly the registered keys under the right clients (C15_distro_round_repairs; a payload missed with a
+    lost batch may stay stale: the recorded finding)"""
+    ids = list(range(1, n_nodes + 1))
+    keys_of = dict((i, list(range(10 * i, 10 * i + 4))) for i in ids)
+    ops = client_ops(rng, ids, length, keys_of)
+    ops = [["drop", o[1], o[2]] if o[0] == "deliver" and rng.random() < 0.35 else o for o in ops]
+    ops += quiesce(ids) + [["dump"]]
+    return {"kind": "lossy", "nodes": ids, "ops": ops, "keys_of": keys_of}
+
+
 def gen_kill_rejoin(rng, n_nodes, length):
     ids = list(range(1, n_nodes + 1))
     keys_of = dict((i, list(range(10 * i, 10 * i + 5))) for i in ids)
@@ -492,6 +504,8 @@ def run(chk, replay=None):
         cases.append(gen_converge(rng, rng.choice([2, 3, 3, 4]), rng.choice([15, 30, 50])))
     for _ in range(20 * scale):
         cases.append(gen_kill_rejoin(rng, rng.choice([3, 3, 4]), rng.choice([15, 30])))
+    for _ in range(16 * scale):
+        cases.append(gen_lossy(rng, rng.choice([2, 3, 3, 4]), rng.choice([20, 40, 60])))
     for _ in range(8 * scale):
         cases.append(gen_rejoin_then_kill(rng, rng.choice([2, 3, 3, 4]), rng.choice([10, 25])))
 
@@ -532,7 +546,7 @@ def run(chk, replay=None):
                                  dict(small, node=n))
                 if any(not i["grpc"] for i in n["reg"]):
                     chk.classify("scope", "a non-gRPC instance appeared in a gRPC-only script", dict(small, node=n))
-        if c["kind"] in ("converge", "stale"):
+        if c["kind"] in ("converge", "stale", "lossy"):
             final = r["dumps"][-1]
             views = dict((n["id"], gview(n)) for n in final["nodes"])
             want = dict((k, [v[0], v[1], v[2]]) for k, v in expected_registry(c["ops"]).items())
@@ -542,7 +556,7 @@ def run(chk, replay=None):
                 if gv != want:
                     diff = sorted(set(gv) ^ set(want)) or [k for k in gv if gv[k] != want.get(k)]
                     rep = dict(small, node=nid, got=gv, want=want, keys=diff)
-                    stale = (c["kind"] == "stale" and set(gv) == set(want)
+                    stale = (c["kind"] in ("stale", "lossy") and set(gv) == set(want)
                              and all(gv[k][:2] == want[k][:2] for k in gv))
                     if stale:
                         chk.classify("distro-diff-ignores-values",
